@@ -94,7 +94,16 @@ func (e *env) close() {
 
 // quiesce waits until no compaction is running and none is needed (Partition.Wait can return
 // between the end of one compaction and the follow-up Compact() of its goroutine).
+//
+// Compactions are ENABLED only inside quiesce: a compaction goroutine ends with a deferred
+// p.Compact() that can run arbitrarily late (after Wait has returned); if it ran in the middle of a
+// later Partition.DropMeasurement it would roll the active log there (needsLogCompaction inside
+// compact()), splitting the operation's entries over two log files - a timing-dependent schedule
+// the histories do not describe.  While compactions are disabled such a late Compact() is a no-op;
+// the roll at the end of every operation (CheckLogFile) does not depend on the switch.
 func quiesce(idx *tsi1.Index, partN uint64) error {
+	idx.EnableCompactions()
+	defer idx.DisableCompactions()
 	stable := 0
 	for i := 0; i < 4000; i++ {
 		idx.Compact()
